@@ -330,6 +330,25 @@ impl IndexTable {
 		(Entry::empty(), 0)
 	}
 
+	/// Verification hook: run both page searches on a caller supplied page.
+	/// Returns ((entry, position) of the scalar search, (entry, position) of the SSE2 search).
+	#[cfg(pdb_verif)]
+	pub fn verif_find_entries(
+		index_bits: u8,
+		key_prefix: u64,
+		sub_index: usize,
+		page: &[u8; CHUNK_LEN],
+	) -> ((u64, usize), (u64, usize)) {
+		let table = IndexTable::create_new(std::path::Path::new(""), TableId::new(0, index_bits));
+		let chunk = Chunk(*page);
+		let base = table.find_entry_base(key_prefix, sub_index, &chunk);
+		#[cfg(target_arch = "x86_64")]
+		let fast = table.find_entry_sse2(key_prefix, sub_index, &chunk);
+		#[cfg(not(target_arch = "x86_64"))]
+		let fast = table.find_entry(key_prefix, sub_index, &chunk);
+		((base.0.as_u64(), base.1), (fast.0.as_u64(), fast.1))
+	}
+
 	// Only returns 54 bits of the actual key.
 	pub fn recover_key_prefix(&self, chunk: u64, entry: Entry) -> Key {
 		// Restore first 54 bits of the key.
